@@ -34,6 +34,13 @@ def c01_space(tier, rng, scale=1.0):
     texts += line_soups(rng.fork('lines'), int(n * 0.7))
     texts += boundary_inputs()
     texts += alias_docs(rng.fork('alias'), int((1500 if tier == 'quick' else 40000) * scale))
+    # structured, mostly valid documents from the spec-derived renderer (and mutations of them)
+    import render as _R
+    rr = rng.fork('render')
+    rendered = [_R.render_stream(rr)[0] for _ in range(int((4000 if tier == 'quick' else 100000) * scale))]
+    texts += rendered
+    for t in rendered[::4]:
+        texts.append(mutate(rr, t))
     mr = rng.fork('mut')
     for _ in range(int((2000 if tier == 'quick' else 40000) * scale)):
         t = mr.choice(suite)
@@ -1088,6 +1095,8 @@ def core_check(text, r, c):
     if r.startswith('D:'):
         if cflt is None:
             return f'float for a text the core schema reads as {c}'
+        if cint is not None and I64[0] <= cint <= I64[1]:
+            return 'an integer literal within 64 bits was read as a float'
         return None if f64bits(cflt) == int(r[2:], 16) else f'float bits {r[2:]} differ from the value of {cflt}'
     if r.startswith('S:'):
         if unhx(r[2:]) != text:
@@ -1355,7 +1364,11 @@ def c09(tier, rng):
     L = 3 if tier == 'quick' else 4
     res.rule = f"strings: every string of length <= {L} over the 20-symbol alphabet plus type-like words in four positions (root, item, key, value) x compact x multiline_strings; random trees to depth 5 with boundary numbers, floats, complex and empty keys; non-trivial = the tree contains a string that needs quoting, a number, or a collection; distinct by (tree, settings)"
     res.corr_ops = ['emt (emitted text, byte for byte)', 'nq', 'esc', 'lit']
-    strs = list(exhaustive(ALPHA20, L)) + WORDS + ['a' * 1020, 'a' * 1024, 'a' * 1025, 'k' * 1100, 'é' * 600, '"' * 400]
+    # document-marker-like lines inside strings, followed by every kind of blank / break / text
+    markers = [pre + m + fol + post for m in ('...', '---') for fol in ('', ' ', '\t', 'x', '\n', '\r', ' x', '\tx', '.', '-')
+               for pre in ('', 'a\n', '\n', 'to do\n') for post in ('', '\nb', 'later')]
+    strs = list(exhaustive(ALPHA20, L)) + WORDS + markers + ['a' * 1020, 'a' * 1024, 'a' * 1025, 'k' * 1100, 'é' * 600, '"' * 400,
+            'a\tb', '\ta', 'a\t', 'a\n\tb', '\t\n', 'x\n \ty', 'a\rb', 'a\r\nb', '\r', 'a\n\rb']
     trees = []
     for s in strs:
         S = ('S', s)
@@ -1540,12 +1553,14 @@ def c16_case(r, keep):
             lines.insert(r.below(len(lines) + 1), '%FOO bar baz')
         kinds.append(f'tags{nt}yaml{yaml_lines}')
         body, e = c16_doc(r, table)
-        if lines or d > 0 or r.chance(1, 2):
+        if lines or (d > 0 and r.chance(1, 2)) or (d == 0 and r.chance(1, 2)):
             head = '\n'.join(lines) + ('\n' if lines else '') + '---\n'
+            if d > 0 and (lines or r.chance(1, 2)):
+                head = '...\n' + head
+        elif d > 0:
+            head = '...\n'          # a bare document (no '---') after an explicit document end
         else:
             head = ''
-        if d > 0 and (lines or r.chance(1, 2)):
-            head = '...\n' + head
         text += head + body
         if e is None:
             error = True
@@ -2186,6 +2201,13 @@ def c13(tier, rng):
         v = R.gen_json(r, r.randint(0, 5))
         for mode in ('compact', 'pretty', 'random'):
             cases.append((v, mode, R.jser(r, v, mode)))
+    # boundary family: member names and whitespace runs around the 1024-character implicit-key limit
+    for n in list(range(1018, 1031)) + [2000, 5000]:
+        cases.append((('o', [('k' * n, ('n', '1'))]), 'compact', '{"' + 'k' * n + '":1}'))
+        cases.append((('o', [('k', ('n', '1'))]), 'random', '{"k"' + ' ' * n + ':1}'))
+        cases.append((('o', [('k', ('n', '1'))]), 'random', '{"k"' + '\n' * n + ': 1}'))
+        cases.append((('a', [('o', [('é' * n, ('s', 'v' * n))])]), 'compact', '[{"' + 'é' * n + '":"' + 'v' * n + '"}]'))
+        cases.append((('o', [('a', ('o', [('b' * n, ('l', 'null'))]))]), 'pretty', '{\n  "a": {\n    "' + 'b' * n + '": null\n  }\n}'))
     for d in (100, 200, 254):
         v = ('n', '1')
         for _ in range(d):
